@@ -44,6 +44,10 @@ hmod!(pub(crate) c10, "c10.rs");
 hmod!(pub(crate) c15, "c15.rs");
 #[cfg(not(feature = "shuttle"))]
 hmod!(pub(crate) c17, "c17.rs");
+#[cfg(not(feature = "shuttle"))]
+hmod!(pub(crate) c19, "c19.rs");
+#[cfg(not(feature = "shuttle"))]
+hmod!(pub(crate) c19p, "c19p.rs");
 
 #[test]
 fn selftest() {
